@@ -1,10 +1,269 @@
-//! C07 (stub)
-use super::prelude::*;
+//! C07 — modular add/sub/neg/double/mul/halve return the canonical residue.
+//!
+//! Domain (from the statement): a, b in [0, p); p >= 1; p odd where the function requires it;
+//! p = 2^BITS - c (1 <= c <= Limb::MAX) for the special-modulus forms. Expected: the unique value
+//! in [0, p) congruent to the mathematical result.
 
-pub fn special_inputs(_c: &mut Ctx, _limbs: usize) -> Vec<(BigUint, BigUint, BigUint)> {
-    Vec::new()
+use super::prelude::*;
+use crypto_bigint::modular::{MontyForm, MontyParams};
+use crypto_bigint::{AddMod, Concat, MulMod, NegMod, Split, SubMod};
+
+/// (a, b, p) with a, b < p. Moduli: 1, 2, 3, 2^BITS-1, 2^(BITS-1)+-1, zero high limbs, 2^BITS - c,
+/// edge values; residues 0, 1, p-1, p/2, a = b, a + b = p, p +- 1, sums overflowing 2^BITS.
+pub fn mod_inputs(c: &mut Ctx, limbs: usize, odd: bool) -> Vec<(BigUint, BigUint, BigUint)> {
+    let n_mod = (c.cap / 110).clamp(8, 96);
+    let mut out = Vec::new();
+    for p in c.moduli(limbs, odd, n_mod) {
+        let rs = c.residues(&p, 9);
+        for a in &rs {
+            for b in &rs {
+                out.push((a.clone(), b.clone(), p.clone()));
+            }
+        }
+        // a + b = p, p + 1, p - 1
+        for a in rs.iter().take(6) {
+            let b = (&p - a) % &p;
+            out.push((a.clone(), b.clone(), p.clone()));
+            out.push((a.clone(), (&b + 1u32) % &p, p.clone()));
+            out.push((a.clone(), (&b + &p - 1u32) % &p, p.clone()));
+        }
+    }
+    for _ in 0..c.iters {
+        let mut p = c.rnd(limbs);
+        if odd {
+            p |= BigUint::one();
+        }
+        if p.is_zero() {
+            p = BigUint::one();
+        }
+        let a = c.rnd_below(&p);
+        let b = match c.below(6) {
+            0 => a.clone(),
+            1 => (&p - &a) % &p,
+            _ => c.rnd_below(&p),
+        };
+        out.push((a, b, p));
+    }
+    out
+}
+
+/// (a, b, c) for the special-modulus forms: p = 2^(64 limbs) - c, a, b < p. Biased towards
+/// operands with all-ones high limbs and c near MAX (large reduction carries; the historic
+/// `mul_mod_special` defect needed a first-round carry of Word::MAX).
+pub fn special_inputs(c: &mut Ctx, limbs: usize) -> Vec<(BigUint, BigUint, BigUint)> {
+    let bits = 64 * limbs as u32;
+    let cs: Vec<u64> = vec![u64::MAX, u64::MAX - 1, 1, 2, 189, 1 << 63, (1 << 63) + 1, (1 << 63) - 1, 1 << 32, c.word(), c.word() | 1, c.word() >> 32];
+    let per_c = ((c.cap / cs.len()) as f64).sqrt() as usize;
+    let mut out = Vec::new();
+    for (ci, cc) in cs.iter().enumerate() {
+        let cc = BigUint::from(*cc);
+        let p = pow2(bits) - &cc;
+        // c near MAX gets a double share
+        let n_ops = if ci < 2 { per_c * 2 } else { per_c }.max(12);
+        let mut ops: Vec<BigUint> = vec![BigUint::zero(), BigUint::one() % &p, &p - 1u32, &p >> 1, ((&p >> 1) + 1u32) % &p];
+        if p > BigUint::from(2u8) {
+            ops.push(&p - 2u32);
+        }
+        // all-ones high limbs, edgy low limbs: 2^BITS - 2^(64 k) + small
+        for k in 1..limbs as u32 {
+            ops.push((pow2(bits) - pow2(64 * k)) % &p);
+            ops.push((pow2(bits) - pow2(64 * k) + 1u32) % &p);
+            ops.push((pow2(bits) - pow2(64 * k) + BigUint::from(c.edgy_word())) % &p);
+        }
+        let mut guard = 0;
+        while ops.len() < n_ops && guard < 10 * n_ops {
+            guard += 1;
+            let x = match c.below(4) {
+                0 => {
+                    // top-heavy
+                    let mut w: Vec<u64> = (0..limbs).map(|_| c.edgy_word()).collect();
+                    w[limbs - 1] = u64::MAX;
+                    if limbs >= 2 && c.coin() {
+                        w[limbs - 2] = u64::MAX;
+                    }
+                    words_to_big(&w)
+                }
+                1 => {
+                    let e = c.edges(limbs, 64);
+                    let i = c.below(e.len());
+                    e[i].clone()
+                }
+                2 => &p - BigUint::from(c.edgy_word()) % &p,
+                _ => c.rnd_below(&p),
+            };
+            if x < p {
+                ops.push(x);
+            }
+        }
+        for a in &ops {
+            for b in &ops {
+                out.push((a.clone(), b.clone(), cc.clone()));
+            }
+        }
+    }
+    for _ in 0..c.iters {
+        let cc = BigUint::from(c.edgy_word().max(1));
+        let p = pow2(bits) - &cc;
+        let (a, b) = (c.rnd_below(&p), c.rnd_below(&p));
+        out.push((a, b, cc));
+    }
+    out
+}
+
+fn add_sub_neg<const L: usize>(c: &mut Ctx) {
+    for (a, b, p) in mod_inputs(c, L, false) {
+        if c.done() {
+            return;
+        }
+        let (x, y, m) = (bu::<L>(&a), bu::<L>(&b), bu::<L>(&p));
+        let sum = (&a + &b) % &p;
+        let dif = (&a + &p - &b) % &p;
+        let neg = (&p - &a) % &p;
+        let dbl = (&a + &a) % &p;
+        check!(c, call(|| x.add_mod(&y, &m)).map(|r| ub(&r)), sum.clone(); a, b, p);
+        check!(c, call(|| AddMod::add_mod(&x, &y, &m)).map(|r| ub(&r)), sum; a, b, p);
+        check!(c, call(|| x.sub_mod(&y, &m)).map(|r| ub(&r)), dif.clone(); a, b, p);
+        check!(c, call(|| SubMod::sub_mod(&x, &y, &m)).map(|r| ub(&r)), dif; a, b, p);
+        check!(c, call(|| x.neg_mod(&m)).map(|r| ub(&r)), neg.clone(); a, p);
+        check!(c, call(|| NegMod::neg_mod(&x, &m)).map(|r| ub(&r)), neg; a, p);
+        check!(c, call(|| x.double_mod(&m)).map(|r| ub(&r)), dbl; a, p);
+    }
+}
+
+fn mul_mod_vartime<const L: usize>(c: &mut Ctx) {
+    for (a, b, p) in mod_inputs(c, L, false) {
+        if c.done() {
+            return;
+        }
+        let (x, y, m) = (bu::<L>(&a), bu::<L>(&b), bu::<L>(&p));
+        let exp = (&a * &b) % &p;
+        check!(c, call(|| x.mul_mod_vartime(&y, &NonZero::new(m).unwrap())).map(|r| ub(&r)), exp.clone(); a, b, p);
+        check!(c, call(|| MulMod::mul_mod(&x, &y, &m)).map(|r| ub(&r)), exp; a, b, p);
+    }
+}
+
+fn mul_mod<const L: usize, const W: usize>(c: &mut Ctx)
+where
+    Uint<L>: Concat<Output = Uint<W>>,
+    Uint<W>: Split<Output = Uint<L>>,
+{
+    for (a, b, p) in c.scaled(if L >= 16 { 4 } else { 1 }, |c| mod_inputs(c, L, false)) {
+        if c.done() {
+            return;
+        }
+        let (x, y, m) = (bu::<L>(&a), bu::<L>(&b), nzu::<L>(&p));
+        if p.bit(0) {
+            check!(c, call(|| x.mul_mod(&y, &m)).map(|r| ub(&r)), (&a * &b) % &p; a, b, p);
+        } else {
+            // documented: panics if p is even
+            must_panic!(c, call(|| x.mul_mod(&y, &m)).map(|r| ub(&r)); a, b, p);
+        }
+    }
+}
+
+fn special<const L: usize>(c: &mut Ctx) {
+    let bits = 64 * L as u32;
+    for (a, b, cc) in special_inputs(c, L) {
+        if c.done() {
+            return;
+        }
+        let p = pow2(bits) - &cc;
+        let (x, y, l) = (bu::<L>(&a), bu::<L>(&b), bl(&cc));
+        check!(c, call(|| x.add_mod_special(&y, l)).map(|r| ub(&r)), (&a + &b) % &p; a, b, cc);
+        check!(c, call(|| x.sub_mod_special(&y, l)).map(|r| ub(&r)), (&a + &p - &b) % &p; a, b, cc);
+        check!(c, call(|| x.neg_mod_special(l)).map(|r| ub(&r)), (&p - &a) % &p; a, cc);
+        check!(c, call(|| x.mul_mod_special(&y, l)).map(|r| ub(&r)), (&a * &b) % &p; a, b, cc);
+    }
+}
+
+/// Halving is only reachable through the Montgomery forms (C08 covers it in depth); here the thin
+/// statement: halve(a) is the canonical h with 2h = a (mod p), p odd.
+fn halve<const L: usize>(c: &mut Ctx) {
+    for (a, _b, p) in c.scaled(if L >= 16 { 16 } else { 4 }, |c| mod_inputs(c, L, true)) {
+        if c.done() {
+            return;
+        }
+        let exp = if a.bit(0) { (&a + &p) >> 1 } else { &a >> 1 };
+        let got = call(|| {
+            let params = MontyParams::new_vartime(oddu::<L>(&p));
+            MontyForm::new(&bu::<L>(&a), params).div_by_2().retrieve()
+        })
+        .map(|r| ub(&r));
+        check!(c, got, exp; a, p);
+    }
+}
+
+// ---------------------------------------------------------------- BoxedUint (equal precisions, as documented)
+
+fn boxed_add_sub_neg(c: &mut Ctx) {
+    for l in 1..=4usize {
+        for (a, b, p) in c.scaled(4, |c| mod_inputs(c, l, false)) {
+            if c.done() {
+                return;
+            }
+            let (x, y, m) = (bx(&a, l), bx(&b, l), bx(&p, l));
+            let sum = (&a + &b) % &p;
+            let dif = (&a + &p - &b) % &p;
+            let neg = (&p - &a) % &p;
+            let dbl = (&a + &a) % &p;
+            let sh = |r: BoxedUint| (xb(&r), r.nlimbs());
+            check!(c, call(|| x.add_mod(&y, &m)).map(sh), (sum.clone(), l); a, b, p, l);
+            check!(c, call(|| AddMod::add_mod(&x, &y, &m)).map(sh), (sum.clone(), l); a, b, p, l);
+            check!(c, call(|| { let mut t = x.clone(); t.add_mod_assign(&y, &m); t }).map(sh), (sum, l); a, b, p, l);
+            check!(c, call(|| x.sub_mod(&y, &m)).map(sh), (dif.clone(), l); a, b, p, l);
+            check!(c, call(|| SubMod::sub_mod(&x, &y, &m)).map(sh), (dif, l); a, b, p, l);
+            check!(c, call(|| x.neg_mod(&m)).map(sh), (neg.clone(), l); a, p, l);
+            check!(c, call(|| NegMod::neg_mod(&x, &m)).map(sh), (neg, l); a, p, l);
+            check!(c, call(|| x.double_mod(&m)).map(sh), (dbl, l); a, p, l);
+        }
+    }
+}
+
+fn boxed_mul_mod(c: &mut Ctx) {
+    for l in 1..=4usize {
+        for (a, b, p) in c.scaled(8, |c| mod_inputs(c, l, false)) {
+            if c.done() {
+                return;
+            }
+            let (x, y, m) = (bx(&a, l), bx(&b, l), bx(&p, l));
+            if p.bit(0) {
+                let exp = (&a * &b) % &p;
+                check!(c, call(|| x.mul_mod(&y, &m)).map(|r| (xb(&r), r.nlimbs())), (exp.clone(), l); a, b, p, l);
+                check!(c, call(|| MulMod::mul_mod(&x, &y, &m)).map(|r| (xb(&r), r.nlimbs())), (exp, l); a, b, p, l);
+            } else {
+                // documented: panics if p is even
+                must_panic!(c, call(|| x.mul_mod(&y, &m)).map(|r| xb(&r)); a, b, p, l);
+            }
+        }
+    }
+}
+
+fn boxed_special(c: &mut Ctx) {
+    for l in 1..=4usize {
+        let bits = 64 * l as u32;
+        for (a, b, cc) in c.scaled(4, |c| special_inputs(c, l)) {
+            if c.done() {
+                return;
+            }
+            let p = pow2(bits) - &cc;
+            let (x, y, lc) = (bx(&a, l), bx(&b, l), bl(&cc));
+            let sh = |r: BoxedUint| (xb(&r), r.nlimbs());
+            check!(c, call(|| x.sub_mod_special(&y, lc)).map(sh), ((&a + &p - &b) % &p, l); a, b, cc, l);
+            check!(c, call(|| x.neg_mod_special(lc)).map(sh), ((&p - &a) % &p, l); a, cc, l);
+            check!(c, call(|| x.mul_mod_special(&y, lc)).map(sh), ((&a * &b) % &p, l); a, b, cc, l);
+        }
+    }
 }
 
 pub fn cases() -> Vec<Case> {
-    Vec::new()
+    let mut v = Vec::new();
+    ucases!(v, "add_mod/sub_mod/neg_mod/double_mod (+AddMod/SubMod/NegMod)", add_sub_neg; 1, 2, 3, 4, 16, 32);
+    ucases!(v, "mul_mod_vartime/MulMod", mul_mod_vartime; 1, 2, 3, 4, 16);
+    ucases2!(v, "mul_mod (odd p; panics on even p) wide", mul_mod; (1, 2), (2, 4), (3, 6), (4, 8), (16, 32));
+    ucases!(v, "add_mod_special/sub_mod_special/neg_mod_special/mul_mod_special", special; 1, 2, 3, 4, 16);
+    ucases!(v, "MontyForm::div_by_2 (halving)", halve; 1, 2, 3, 4, 16);
+    case!(v, "BoxedUint::add_mod/add_mod_assign/sub_mod/neg_mod/double_mod (+traits)", boxed_add_sub_neg);
+    case!(v, "BoxedUint::mul_mod/MulMod (odd p; panics on even p)", boxed_mul_mod);
+    case!(v, "BoxedUint::sub_mod_special/neg_mod_special/mul_mod_special", boxed_special);
+    v
 }
